@@ -198,7 +198,7 @@ Section FileConc.
     (forall i st' t out path, fstep H st i = Some st' -> nth_error (fc_thr st) i = Some t ->
        ft_pc t = FWrite None out path ->
        file_fetch (fc_st st') (ft_name t) (ft_d t) = Some out /\
-       matches_desc H (d_dg (ft_d t)) (d_sz (ft_d t)) out /\ stream (ft_evs t) = out).
+       matches_desc H (d_dg (ft_d t)) (d_sz (ft_d t)) out /\ (neof (ft_evs t) = 0%nat -> stream (ft_evs t) = out)).
   Proof.
     intros R Su F E. pose proof (frun_inv sched _ _ (finv_start s ts R Su F) E) as Iv.
     split.
